@@ -8,6 +8,7 @@
 //	-mode qscripts -in f   queue op sequences printed by TLC (MC_AdmissionGen/GSSpec)
 //	-mode qrandom          seeded random queue histories
 //	-mode misc             BEP 40 vectors, symmetry of the priority function, IPv6 observations
+//	-mode replay   -in f   re-execute a recorded history (./check C18 --replay)
 package main
 
 import (
@@ -158,8 +159,17 @@ func (s *blSim) init() {
 	emit(ev{"op": "Init", "cap": 0, "port": 0, "cip": [2]int{-1, -1}, "bl": true, "pool": []int{}})
 }
 
-func (s *blSim) reload(ls []line, decorate bool, info bool) bool {
+// guard turns a panic of the real code into a recorded event (the trace goes on: a panicking
+// Reload leaves the previous rules in place).
+func guard(op string, detail any) {
+	if r := recover(); r != nil {
+		emit(ev{"op": "Panic", "in": op, "msg": fmt.Sprint(r), "arg": detail})
+	}
+}
+
+func (s *blSim) reload(ls []line, decorate bool, info bool) (ok bool) {
 	text := render(ls, decorate)
+	defer guard("Reload", text)
 	n, err := s.bl.Reload(strings.NewReader(text))
 	if info {
 		emit(ev{"op": "Info", "what": "reload", "text": text, "n": n, "err": err != nil})
@@ -173,6 +183,7 @@ func (s *blSim) reload(ls []line, decorate bool, info bool) bool {
 }
 
 func (s *blSim) query(ips []uint32) {
+	defer guard("Blocked", len(ips))
 	hs := make([][2]int, len(ips))
 	ans := make([]bool, len(ips))
 	for i, v := range ips {
@@ -184,6 +195,7 @@ func (s *blSim) query(ips []uint32) {
 }
 
 func (s *blSim) resolve(ips []uint32) {
+	defer guard("Resolve", len(ips))
 	ctx := context.Background()
 	for _, v := range ips {
 		port := []int{0, 80, 6881, 65535}[rng.Intn(4)]
@@ -548,6 +560,7 @@ func (s *qSim) reset() {
 func (s *qSim) reload(ls []line) {
 	ls = append([]line{}, ls...)
 	text := render(ls, false)
+	defer guard("Reload", text)
 	n, err := s.bl.Reload(strings.NewReader(text))
 	emit(ev{"op": "Reload", "lines": ls, "err": err != nil, "n": n, "len": s.bl.Len()})
 }
@@ -744,6 +757,82 @@ func modeQRandom(n, nops int) {
 	}
 }
 
+// modeReplay re-executes a recorded history (Init, Reload, Query, Resolve, Push, Pop, Reset) on the real code
+// and records it afresh.  Line decorations are not reproduced (cidr lines are written canonically).
+func modeReplay(in string) {
+	type rec struct {
+		Op   string `json:"op"`
+		Cap  int    `json:"cap"`
+		Port int    `json:"port"`
+		Cip  [2]int `json:"cip"`
+		Bl   bool   `json:"bl"`
+		Pool []struct {
+			IP   [2]int `json:"ip"`
+			Port int    `json:"port"`
+		} `json:"pool"`
+		Lines []line   `json:"lines"`
+		Ips   [][2]int `json:"ips"`
+		IP    [2]int   `json:"ip"`
+		Addrs []int    `json:"addrs"`
+		S     int      `json:"s"`
+	}
+	var qs *qSim
+	bs := &blSim{}
+	readNdjson(in, func(b []byte) {
+		var r rec
+		if err := json.Unmarshal(b, &r); err != nil {
+			panic(err)
+		}
+		switch r.Op {
+		case "Init":
+			if len(r.Pool) == 0 {
+				qs = nil
+				bs.init()
+				return
+			}
+			qs = &qSim{port: r.Port}
+			if r.Cip[0] >= 0 {
+				qs.cip = ip4(unhalves(r.Cip))
+			}
+			seen := map[[2]int]bool{}
+			for _, a := range r.Pool {
+				key := [2]int{int(unhalves(a.IP)), a.Port}
+				qs.pool = append(qs.pool, paddr{IP: unhalves(a.IP), Port: a.Port, Form16: seen[key]})
+				seen[key] = true
+			}
+			protect(func() { qs.start(r.Cap, r.Bl, false) })
+		case "Reload":
+			for i := range r.Lines {
+				switch r.Lines[i].K {
+				case "bad":
+					r.Lines[i].text = "garbage"
+				case "skip":
+					r.Lines[i].text = "# comment"
+				}
+			}
+			if qs != nil {
+				qs.reload(r.Lines)
+			} else {
+				bs.reload(r.Lines, false, false)
+			}
+		case "Query":
+			ips := make([]uint32, len(r.Ips))
+			for i, h := range r.Ips {
+				ips[i] = unhalves(h)
+			}
+			bs.query(ips)
+		case "Resolve":
+			bs.resolve([]uint32{unhalves(r.IP)})
+		case "Push":
+			protect(func() { qs.push(r.Addrs, r.S) })
+		case "Pop":
+			protect(func() { qs.pop() })
+		case "Reset":
+			protect(func() { qs.reset() })
+		}
+	})
+}
+
 func modeMisc(n int) {
 	emit(ev{"op": "Init", "cap": 0, "port": 0, "cip": [2]int{-1, -1}, "bl": true, "pool": []int{}})
 	a := func(s string, port int) *net.TCPAddr { return &net.TCPAddr{IP: net.ParseIP(s), Port: port} }
@@ -808,6 +897,8 @@ func main() {
 		modeQRandom(*n, *nops)
 	case "misc":
 		modeMisc(*n)
+	case "replay":
+		modeReplay(*in)
 	default:
 		panic("unknown mode")
 	}
